@@ -156,7 +156,7 @@ def s5(ctx, rep):
     if ok:
         m = parity.mode_test(ifs[0].test)
         amin, amax = (ifs[0].body, ifs[0].orelse) if m == "min" else (ifs[0].orelse, ifs[0].body)
-        ok = parity.arms_are_dual(amin, amax, odd=lambda s: True)
+        ok = parity.arms_are_dual(amin, amax, odd=lambda s: True, oriented=True)
         # the min arm sorts ascending on the per-trial minimum
         ok = ok and "min_metrics" in U(amin[0]) and "key=lambda x: x[1]" in U(amin[-1])
     rep.put(ok, "S5", "parity", "print_best_metric_found: per-trial optimum and sort direction are dual over the mode", f, ifs[0] if ifs else None, "",
@@ -177,7 +177,7 @@ def s5(ctx, rep):
     if ok:
         m = parity.mode_test(ifs[0].test)
         amin, amax = (ifs[0].body, ifs[0].orelse) if m == "min" else (ifs[0].orelse, ifs[0].body)
-        ok = parity.arms_are_dual(amin, amax) and "argmin" in U(amin[0])
+        ok = parity.arms_are_dual(amin, amax, oriented=True) and "argmin" in U(amin[0])
         bi = U(amin[0].targets[0]) if isinstance(amin[0], ast.Assign) else "?"
         ok = ok and any(isinstance(x, ast.Assign) and f"self.results.loc[{bi}]" in U(x.value) for x in walk_shallow(e.node))
     rep.put(ok, "S5", "parity", "ExperimentResult.best_config: argmin for min / argmax for max over the results table, row looked up by that index", e, None, "")
